@@ -20,10 +20,10 @@ open MakoModel.Basic
 
 abbrev Str := List Char
 
-/-- node classes as `extract_nodes` distinguishes them (`other` = any other tag: include, namespace,
-    inherit, `<%text>`; `ctlEnd` = a `ControlLine` with `isend`) -/
+/-- node classes as `extract_nodes` distinguishes them (`namespaceTag` = `<%namespace>`; `other` = any other tag:
+    include, inherit, `<%text>`; `ctlEnd` = a `ControlLine` with `isend`) -/
 inductive Kind
-  | text | comment | defTag | blockTag | callTag | pageTag | nsCall | ctl | ctlEnd | code | expr | other
+  | text | comment | defTag | blockTag | callTag | pageTag | nsCall | namespaceTag | ctl | ctlEnd | code | expr | other
   deriving DecidableEq, Repr
 
 /-- `code`: `function_decl.code` (def), `body_decl.code` (block, page), `code.code` (call, `<% %>`, `${}`),
@@ -148,6 +148,9 @@ def runNode {α : Type} (tags : List Str) (proc : Proc α) : Node → St → Lis
     | .ctlEnd => ([], { st with inTC := false })
     | .text => ([], st)
     | .other => ([], st)
+    -- `NamespaceTag`: `if node.nodes: yield from self.extract_nodes(node.nodes)`; `continue` (no code of its own,
+    -- the state of this list is left alone)
+    | .namespaceTag => (runNodes tags proc ch St.clean, st)
     | k =>
       let code := selectCode k code0 esc off
       let tc := pendingFor st.tc ln
@@ -268,10 +271,11 @@ def Site.text (s : Site) : Str :=
   else '(' :: s.code ++ [')', ',', ' ', '('] ++ List.replicate (s.filterOff - countNL s.code) '\n' ++ s.filter ++ [',', ')']
 
 /-- specification: the tags whose body is template content of its own (`<%def>`, `<%block>`, `<%call>`,
-    `<%ns:def>`); the children of any other node (`<%namespace>` with inline defs, `<%text>`, …) count as
-    *hidden* – stated here independently of `Kind.recurses`, which is what the code does -/
+    `<%ns:def>`, `<%namespace>` with inline defs); the children of any other node (a `<%page>`, `<%inherit>`,
+    `<%include>` or `<%text>` tag written with a body) count as *hidden* – stated here independently of what the
+    code descends into -/
 def Kind.container : Kind → Bool
-  | .defTag | .blockTag | .callTag | .nsCall => true
+  | .defTag | .blockTag | .callTag | .nsCall | .namespaceTag => true
   | _ => false
 
 mutual
